@@ -247,7 +247,7 @@ def cxx_str(b):
         else: out.append('\\x%02x""' % ch)
     return '"' + ''.join(out) + '"'
 
-def emit_ct(pats):
+def emit_ct(pats, literals=None):
     o = ['#include "vf_harness.hpp"', 'using namespace ctpg;']
     for i, p in enumerate(pats):
         o.append('constexpr char p%d[] = %s;' % (i, cxx_str(p)))
@@ -258,15 +258,19 @@ def emit_ct(pats):
 template<class E> void query(int i, const E& e, const std::string& s) {
   vf::checked_buffer b{ std::string_view(s) }; bool m = e.match(b);
   ctpg::buffers::string_buffer sb{ std::string(s) }; bool m2 = e.match(sb);
-  std::printf("A %d ok %d %d %ld %ld %ld %ld %ld\\n", i, int(m), int(m2), b.derefs, b.oob_deref, b.oob_form, b.bad_view, b.max_read); }
+  // the other documented overloads: with a stream, with options (verbose on: the trace must not change the answer)
+  std::ostringstream s3, s4; bool m3 = e.match(sb, s3); bool m4 = e.match(ctpg::match_options{}.set_verbose(), ctpg::buffers::string_view_buffer(std::string_view(s)), s4);
+  std::printf("A %d ok %d %d %ld %ld %ld %ld %ld %d %d %d\\n", i, int(m), int(m2), b.derefs, b.oob_deref, b.oob_form, b.bad_view, b.max_read, int(m3), int(m4), int(s3.str().empty())); }
 int main(int argc, char** argv) {
+%(literals)s
   std::ifstream in(argv[1]); std::string line;
   while (std::getline(in, line)) { std::istringstream ls(line); std::string cmd, hs; int i; ls >> cmd >> i >> hs; if (hs == "-") hs.clear(); std::string s = vf::unhex(hs);
     switch (i) {''')
     for i in range(len(pats)):
         o.append('    case %d: if (cmd == "P") dump(%d, r%d); else query(%d, r%d, s); break;' % (i, i, i, i, i))
     o.append('    }\n  }\n  std::printf("END\\n"); return 0; }')
-    return '\n'.join(o) + '\n'
+    lit = '\n'.join('  std::printf("L %d %d %%d\\n", int(r%d.match(%s)));' % (i, k, i, cxx_str(sv)) for i, k, sv in (literals or []))
+    return ('\n'.join(o) + '\n').replace('%(literals)s', lit)
 
 def judge_ct(args):
     """patterns compiled into regex::expr objects; automaton read through the hook, match() exercised on strings around the language"""
@@ -275,8 +279,13 @@ def judge_ct(args):
         out = {'counts': collections.Counter(), 'viol': [], 'samples': [], 'distinct': [], 'incon': []}
         C = out['counts']; rnd = random.Random(seed)
         pats = [t for _, t in items]
+        # the string-literal overload match("...") (a cstring_buffer inside): strings fixed when the program is generated
+        literals = []
+        for i, (ast, t) in enumerate(items):
+            a = rr.sample_string(ast, rnd); b2 = rr.sample_string(ast, rnd)
+            for k, sv in enumerate([a, a[:-1], a + b'\x00' + b2, a + b2, b'']): literals.append((i, k, sv))
         try:
-            exe = common.build(emit_ct(pats), flavour, name='regex_ct')
+            exe = common.build(emit_ct(pats, literals), flavour, name='regex_ct')
         except common.BuildError as e:
             out['viol'].append((['site:regex::expr@constant-evaluation'], 'regex::expr objects for patterns in the documented syntax do not compile: %s' % e.diag[:600], {'patterns': [p.hex() for p in pats]}))
             return out
@@ -302,6 +311,16 @@ def judge_ct(args):
             if ln.startswith('R '): cur = int(ln.split()[1]); dumps[cur] = {'hdr': ln.split(), 'q': []}
             elif ln.startswith('Q ') and cur is not None: dumps[cur]['q'].append(ln)
             elif ln.startswith('A '): answers.append(ln.split())
+        lit_res = {(int(x[1]), int(x[2])): x[3] == '1' for x in (ln.split() for ln in text.split('\n') if ln.startswith('L '))}
+        for (i, k, sv) in literals:
+            if (i, k) not in lit_res or prop in ('C12', 'C06'): continue
+            ast, t = items[i]; C['literal_overload_calls_observed'] += 1
+            want = rr.RefDFA(ast).full_match(sv)
+            if lit_res[(i, k)] != want:
+                det = rr.Glushkov(ast).deterministic(); nested = nested_loop(ast)
+                keys = [pattern_key(t)] + ([] if det else [CLASS_KEY]) + ([NESTED_KEY] if det and nested else [])
+                out['viol'].append((keys, 'regex::expr<%r>.match(literal %r) = %s but the string %s in the language' % (t, sv, lit_res[(i, k)], 'is' if want else 'is not'),
+                                    {'pattern': t.decode('latin-1'), 'pattern_hex': t.hex(), 'witness_hex': sv.hex(), 'matcher_says': lit_res[(i, k)]}))
         for i, (ast, t) in enumerate(items):
             C['evaluations'] += 1
             det = rr.Glushkov(ast).deterministic(); nested = nested_loop(ast)
@@ -331,8 +350,10 @@ def judge_ct(args):
             det = rr.Glushkov(ast).deterministic(); nested = nested_loop(ast)
             keys = [pattern_key(t)] + ([] if det else [CLASS_KEY]) + ([NESTED_KEY] if det and nested else [])
             got = a[3] == '1'
-            if a[3] != a[4]:
-                out['viol'].append(([pattern_key(t)], 'pattern %r string %r: match() differs between buffer kinds' % (t, s_), {'pattern_hex': t.hex(), 'string_hex': s_.hex()}))
+            if a[3] != a[4] or (len(a) > 11 and (a[10] != a[3] or a[11] != a[3])):
+                out['viol'].append(([pattern_key(t)], 'pattern %r string %r: match() differs between buffer kinds / overloads (buffer; buffer+stream; options+buffer+stream): %s' % (t, s_, [a[3], a[4]] + a[10:12]), {'pattern_hex': t.hex(), 'string_hex': s_.hex()}))
+            if len(a) > 12 and got and a[12] != '1' and a[10] == '1':
+                out['viol'].append(([pattern_key(t)], 'pattern %r string %r: a successful non-verbose match() wrote to its stream' % (t, s_), {'pattern_hex': t.hex(), 'string_hex': s_.hex()}))
             if int(a[6]) or int(a[7]) or int(a[8]):
                 out['viol'].append(([pattern_key(t), 'site:regex::expr::match@overread'], 'pattern %r string %r: match() read outside the buffer' % (t, s_), {'pattern_hex': t.hex(), 'string_hex': s_.hex()}))
             if got != want and prop not in ('C12', 'C06'):
